@@ -127,11 +127,13 @@ step_class!(class_paren, b'(', 8, 12);
 step_class!(class_other, b'$', 8, 12);
 step_class!(class_nonascii, 0xC3, 8, 12);
 
-/// 12 / 13 character limits, width-complete: mnemonic, character data, suffix.
+/// 12 / 13 character limits, width-complete: mnemonic, character data, suffix.  The first
+/// byte(s) are concrete so that symbolic execution only walks the reader concerned; the body
+/// (letters, digits, underscore, and `;` as a terminator) is symbolic, total length <= 16.
 macro_rules! limit12 {
     ($name:ident, $prefix:expr, $ih:expr) => {
         #[kani::proof]
-        #[kani::unwind(18)]
+        #[kani::unwind(17)]
         pub fn $name() {
             let mut buf: [u8; 16] = kani::any();
             let p: &[u8] = $prefix;
@@ -141,8 +143,7 @@ macro_rules! limit12 {
                 i += 1;
             }
             let n: usize = kani::any();
-            kani::assume(n >= p.len() + 1 && n <= 16);
-            // the element's body: letters, digits, underscore
+            kani::assume(n >= p.len() && n <= 16);
             let mut i = p.len();
             while i < 16 {
                 if i < n {
@@ -150,13 +151,13 @@ macro_rules! limit12 {
                 }
                 i += 1;
             }
-            kani::assume(is_alpha(buf[p.len()]));
             kani::cover!(n == 16);
             check_step(&buf[..n], $ih, false);
         }
     };
 }
-limit12!(limit_mnemonic, b"", true);
-limit12!(limit_character, b"", false);
-limit12!(limit_suffix, b"1 ", false);
+limit12!(limit_mnemonic, b"A", true);
+limit12!(limit_mnemonic_lower, b"z", true);
+limit12!(limit_character, b"A", false);
+limit12!(limit_suffix, b"1 M", false);
 limit12!(limit_common, b"*", true);
